@@ -729,7 +729,7 @@ theorem gen_blockHandling_reviewed : Gen.Scope.blockHandling =
    ("UserDefinedFunction.ExecuteAggregate", ["scope.CreateChild", "defer childScope.CloseCurrentBlock", "childScope.AddPseudoCursor", "if{", "return nil,err", "}", "fn.execute", "return call"]),
    ("UserDefinedFunction.execute", ["len", "fn.CheckArgsLen", "if{", "return nil,err", "}", "for{", "len", "if{", "scope.Blocks[0].Variables.Add", "if{", "return nil,err", "}", "}", "else{", "Evaluate", "if{", "return nil,err", "}", "scope.DeclareVariableDirectly", "if{", "return nil,err", "}", "}", "}", "NewProcessorWithScope", "proc.execute", "if{", "return nil,err", "}", "if{", "value.NewNull", "}", "return ret,nil"]),
    ("evalFunction", ["strings.ToUpper", "if{", "scope.GetFunction", "if{", "NewFunctionNotExistError", "return nil,call", "}", "if{", "evalAggregateFunction", "return call", "}", "len", "udfn.CheckArgsLen", "if{", "return nil,err", "}", "}", "if{", "JsonObject", "return call", "}", "len", "make", "for{", "Evaluate", "if{", "return nil,err", "}", "}", "if{", "Call", "return call", "}", "else{", "if{", "Now", "return call", "}", "}", "if{", "fn", "return call", "}", "udfn.Execute", "return call"]),
-   ("evalAggregateFunction", ["strings.ToUpper", "if{", "}", "else{", "scope.GetFunction", "if{", "NewFunctionNotExistError", "return nil,call", "}", "}", "if{", "len", "udfn.CheckArgsLen", "if{", "return nil,err", "}", "}", "else{", "len", "if{", "NewFunctionArgumentLengthError", "return nil,call", "}", "}", "len", "if{", "if{", "NewNotGroupingRecordsError", "return nil,call", "}", "if{", "parser.NewIntegerValue", "}", "if{", "if{", "value.IsNull", "value.IsUnknown", "scope.Records[0].IsInRange", "if{", "scope.Records[0].view.RecordSet[scope.Records[0].recordIndex].GroupLen", "int64", "value.NewInteger", "return call,nil", "}", "else{", "value.NewInteger", "return call,nil", "}", "}", "}", "scope.Records[0].IsInRange", "if{", "NewViewFromGroupedRecord", "if{", "return nil,err", "}", "expr.IsDistinct", "view.ListValuesForAggregateFunctions", "if{", "return nil,err", "}", "}", "}", "if{", "len", "make", "for{", "Evaluate", "if{", "return nil,err", "}", "}", "udfn.ExecuteAggregate", "return call", "}", "aggfn", "return call,nil"])] := by decide
+   ("evalAggregateFunction", ["strings.ToUpper", "if{", "}", "else{", "scope.GetFunction", "if{", "NewFunctionNotExistError", "return nil,call", "}", "}", "if{", "len", "udfn.CheckArgsLen", "if{", "return nil,err", "}", "}", "else{", "len", "if{", "NewFunctionArgumentLengthError", "return nil,call", "}", "}", "len", "if{", "if{", "NewNotGroupingRecordsError", "return nil,call", "}", "if{", "parser.NewIntegerValue", "}", "expr.IsDistinct", "if{", "if{", "value.IsNull", "value.IsUnknown", "scope.Records[0].IsInRange", "if{", "scope.Records[0].view.RecordSet[scope.Records[0].recordIndex].GroupLen", "int64", "value.NewInteger", "return call,nil", "}", "else{", "value.NewInteger", "return call,nil", "}", "}", "}", "scope.Records[0].IsInRange", "if{", "NewViewFromGroupedRecord", "if{", "return nil,err", "}", "expr.IsDistinct", "view.ListValuesForAggregateFunctions", "if{", "return nil,err", "}", "}", "}", "if{", "len", "make", "for{", "Evaluate", "if{", "return nil,err", "}", "}", "udfn.ExecuteAggregate", "return call", "}", "aggfn", "return call,nil"])] := by decide
 
 /-- ExecuteStatement hands IF / CASE / WHILE / WHILE IN to the block-opening handlers, SOURCE / EXECUTE / EXECUTE
     prepared to proc.execute (same processor, current block), and every declaration / disposal / cursor statement
